@@ -20,5 +20,11 @@ theorem fn_Value_as_fixed_len_tuple_agree (v : Value) (len : Nat) :
 /-- `impl From<String> for Value` (the meaning of `.into()` at `String → Value`) -/
 theorem fn_Value_from_String_agree (s : Str) : (Rs.into s : Value) = .string s := rfl
 theorem fn_Value_from_float_agree (f : Float) : Gen.Value.from_float f = .float f := rfl
+theorem fn_Value_as_ranged_len_tuple_agree (v : Value) (lo hi : Nat) :
+    Gen.Value.as_ranged_len_tuple v ⟨lo, hi⟩ = v.asRangedLenTuple lo hi := by cases v <;> rfl
+theorem fn_Value_str_from_agree (v : Value) : Gen.Value.str_from v = v.strFrom := by cases v <;> rfl
+/-- `impl From<bool> for Value`, `impl From<&str> for Value` -/
+theorem fn_Value_from_bool_agree (b : Bool) : (Rs.into b : Value) = .boolean b := rfl
+theorem fn_Value_from_str_agree (s : Str) : Gen.Value.from_str s = .string s := rfl
 
 end Evalexpr.AgreeFn
